@@ -71,18 +71,32 @@ pub assume_specification[ char::encode_utf8 ](c: char, dst: &mut [u8]) -> (r: &m
 	ensures r@ == seq![c];
 // derive-generated Clone of Location (String, Range<usize>, usize, usize) is the identity
 impl Clone for Location { #[verifier::external_body] fn clone(&self) -> (r: Self) ensures r == *self { Location { source_filename: self.source_filename.clone(), span: self.span.clone(), line_number: self.line_number, line_offset: self.line_offset } } }
-// RA11 target: the lines of a str (split at '\n', a trailing '\r' of a line stripped, no final empty line), collected.
-// Assumed: every line is followed by at least its '\n' except possibly the last, so the lines with one terminator
-// character each fit in the source plus one; and a str is at most isize::MAX bytes, hence characters, long.
-pub open spec fn sumlen(lines: Seq<&str>, n: int) -> int
+// RA11 target: str::split_inclusive('\n'), collected.  Exact model of the std function (trusted): the pieces concatenate to
+// the source, none is empty, every piece but the last ends in '\n', and '\n' occurs nowhere else in a piece; a str is at
+// most isize::MAX bytes, hence characters, long.
+pub open spec fn cat(p: Seq<&str>, n: int) -> Seq<char>
 	decreases n
 {
-	if n <= 0 { 0 } else { sumlen(lines, n - 1) + lines[n - 1]@.len() + 1 }
+	if n <= 0 { Seq::empty() } else { cat(p, n - 1) + p[n - 1]@ }
+}
+pub open spec fn pieces_ok(p: Seq<&str>, s: Seq<char>) -> bool {
+	&&& cat(p, p.len() as int) =~= s
+	&&& forall|i: int| 0 <= i < p.len() ==> (#[trigger] p[i])@.len() >= 1
+	&&& forall|i: int| 0 <= i < p.len() - 1 ==> (#[trigger] p[i])@.last() == '\n'
+	&&& forall|i: int, j: int| 0 <= i < p.len() && 0 <= j < p[i]@.len() - 1 ==> (#[trigger] p[i]@[j]) != '\n'
 }
 #[verifier::external_body]
-pub fn lexa_str_lines<'a>(source: &'a str) -> (r: Vec<&'a str>)
-	ensures sumlen(r@, r@.len() as int) <= source@.len() + 1, source@.len() <= isize::MAX, source@.len() == 0 ==> r@.len() == 0,
-{ source.lines().collect() }
+pub fn lexa_split_inclusive<'a>(source: &'a str) -> (r: Vec<&'a str>)
+	ensures pieces_ok(r@, source@), source@.len() <= isize::MAX,
+{ source.split_inclusive('\n').collect() }
+// RA14 target: str::strip_suffix with a char pattern
+#[verifier::external_body]
+pub fn lexa_strip_suffix_char<'a>(s: &'a str, c: char) -> (r: Option<&'a str>)
+	ensures match r {
+		Some(p) => s@.len() >= 1 && s@.last() == c && p@ =~= s@.drop_last(),
+		None => s@.len() == 0 || s@.last() != c,
+	},
+{ s.strip_suffix(c) }
 // RA13 target: byte length of a str
 #[verifier::external_body]
 pub fn lexa_str_len(s: &str) -> (r: usize)
